@@ -74,7 +74,6 @@ type gvPath struct {
 type gvIn struct {
 	Cfg   gvCfg    `json:"cfg"`
 	Paths []gvPath `json:"paths"`
-	Curve [][2]uint64 `json:"curve"` // (pos, avg) pairs to evaluate through the real split curve (optional)
 }
 
 type gvWorld struct {
@@ -479,11 +478,6 @@ func TestVerifGov(t *testing.T) {
 		names[k] = v
 	}
 	out.Emit(map[string]interface{}{"kind": "world", "pk": names, "height": w.height})
-	if len(in.Curve) > 0 {
-		// the real split curve on the requested (pos, avg) pairs, through a real commit-free call path:
-		// executeSplit2 is the only caller; the curve itself is probed by the trace of S values in "curve" records
-		out.Emit(map[string]interface{}{"kind": "curve-unsupported"})
-	}
 	h0 := w.height
 	for pi, p := range in.Paths {
 		w.height = h0
@@ -504,6 +498,117 @@ func TestVerifGov(t *testing.T) {
 			}
 			w.observe(ovl, &o)
 			out.Emit(&o)
+		}
+	}
+}
+
+// ---------------------------------------------------------------------------------------------- random histories (trace validation)
+
+type gvTraceIn struct {
+	Cfg     gvCfg    `json:"cfg"`
+	NTraces int      `json:"ntraces"`
+	NSteps  int      `json:"nsteps"`
+	Peers   []string `json:"peers"`
+	Amounts []uint64 `json:"amounts"`
+	Fees    []uint64 `json:"fees"`
+	Prefix  []gvAct  `json:"prefix"`
+}
+
+// TestVerifGovTrace drives the real contract with seeded random calls (valid and invalid) and records, per call,
+// the call, its outcome and the whole bookkeeping read back from storage.  TLC validates the record against
+// Governance (code -> specification).
+func TestVerifGovTrace(t *testing.T) {
+	var in gvTraceIn
+	vhIn(&in)
+	out := vhOpenOut()
+	defer out.Close()
+	w := gvNewWorld(in.Cfg)
+	defer w.Close()
+	w.setup()
+	rng := vhRand()
+	owner := map[string]string{"p1": "o1", "p2": "o2"}
+	for i := 1; i <= 7; i++ {
+		owner[fmt.Sprintf("g%d", i)] = "og"
+	}
+	holders := []string{"a1", "a2", "o1", "o2"}
+	names := []string{"Register", "SetMax", "Authorize", "Authorize", "Authorize", "UnAuthorize", "UnAuthorize", "Withdraw", "Withdraw",
+		"Quit", "Black", "White", "Commit", "Commit", "Commit", "AddInit", "ReduceInit", "SetCost", "Fee", "Fee", "WithdrawFee", "TransferPenalty"}
+	h0 := w.height
+	for ti := 0; ti < in.NTraces; ti++ {
+		w.height = h0
+		ovl := w.store.stateStore.NewOverlayDB()
+		o := gvObs{Path: ti, Step: 0, Res: "init"}
+		w.observe(ovl, &o)
+		out.Emit(&o)
+		last := o
+		for si := 0; si < in.NSteps; si++ {
+			var s gvAct
+			if si < len(in.Prefix) {
+				s = in.Prefix[si]
+			} else {
+				s.Name = names[rng.Intn(len(names))]
+				s.P = in.Peers[rng.Intn(len(in.Peers))]
+				amt := in.Amounts[rng.Intn(len(in.Amounts))]
+				switch s.Name {
+				case "Register":
+					s.P = []string{"p1", "p2"}[rng.Intn(2)]
+					s.A = owner[s.P]
+					s.X = []uint64{10000, 16000, 22000, 9000}[rng.Intn(4)]
+				case "SetMax":
+					s.A = owner[s.P]
+					s.X = []uint64{100000, 3000, 400001}[rng.Intn(3)]
+				case "Authorize":
+					s.A = holders[rng.Intn(len(holders))]
+					s.X = amt
+				case "UnAuthorize", "Withdraw":
+					s.A = holders[rng.Intn(len(holders))]
+					s.X = amt
+					// often aim at an existing position
+					if len(last.Au) > 0 && rng.Intn(4) != 0 {
+						r := last.Au[rng.Intn(len(last.Au))]
+						s.A, s.P = r.A, r.P
+						if s.Name == "Withdraw" && r.WU > 0 && rng.Intn(3) != 0 {
+							s.X = r.WU
+						}
+					}
+				case "Quit", "AddInit", "ReduceInit":
+					s.A = owner[s.P]
+					s.X = []uint64{1000, 500, 6000}[rng.Intn(3)]
+				case "SetCost":
+					s.A = owner[s.P]
+					s.X = uint64(rng.Intn(102))
+					s.Y = uint64(rng.Intn(102))
+				case "Fee":
+					s.P = ""
+					s.X = in.Fees[rng.Intn(len(in.Fees))]
+				case "WithdrawFee":
+					s.P = ""
+					s.A = []string{"og", "o1", "o2", "a1", "a2"}[rng.Intn(5)]
+				case "TransferPenalty":
+					s.A = holders[rng.Intn(2)]
+				case "Black":
+					if rng.Intn(3) != 0 { // keep black-listing rarer than the rest
+						s.Name = "Commit"
+						s.P = ""
+					}
+				case "Commit":
+					s.P = ""
+				}
+			}
+			r := w.apply(ovl, s)
+			o := gvObs{Path: ti, Step: si + 1, Res: "ok", Err: r.Err}
+			if r.Panic {
+				o.Res = "panic"
+			} else if r.Err != "" {
+				o.Res = "err"
+				if len(o.Err) > 200 {
+					o.Err = o.Err[len(o.Err)-200:]
+				}
+			}
+			w.observe(ovl, &o)
+			out.Emit(map[string]interface{}{"kind": "act", "path": ti, "step": si + 1, "act": s})
+			out.Emit(&o)
+			last = o
 		}
 	}
 }
